@@ -37,7 +37,7 @@ def main(root, prev_suffixes, mini=False):
         for sfx in prev_suffixes:
             mp = os.path.join(VERIF, 'seeded', f'{pid}_{sfx}', 'meta.json')
             if os.path.exists(mp):
-                prevs.append(json.load(open(mp)).get('summary', '')[:600])
+                prevs.append(json.load(open(mp)).get('summary', '')[:(600 if len(prev_suffixes) <= 3 else 330)])
         prev_text = '\n'.join(f'  ({i + 1}) "{s}"' for i, s in enumerate(prevs))
         prompt = f"""You are helping to evaluate how well a (separately built, hidden) checker can detect subtle regressions in the Python library `labtech` (runs dataclass-defined experiment tasks as a dependency DAG across subprocesses, with per-type parallelism limits and on-disk result caching).
 
